@@ -13,7 +13,7 @@ import numpy as np
 PROP = "C34"
 N = {"quick": 2500, "thorough": 200000}
 WORKERS = {"quick": 4, "thorough": 16}
-TIMEOUT = {"quick": 300, "thorough": 1500}
+TIMEOUT = {"quick": 600, "thorough": 3000}
 RULE = ("clustered point sets in 1-3 dimensions: 1-8 clusters of 1-5 members, cluster diameter "
         "<= 0.01 tol, separation >= 50 tol, tol in {1e-10 .. 0.1}; cluster norms either random "
         "or spread over a few tol around a common radius (the regime where the norm based "
@@ -258,6 +258,7 @@ def _check_uniquify(case, mon):
     sizes = np.bincount(labels) if n else np.array([])
     mon.nontrivial(K >= 2 and sizes.max() >= 2)
     want_n2o, want_o2n = _expected(labels)
+    straddlers = set()
     # does the (first-norm anchored) bucket boundary of the implementation fall inside a
     # generated cluster?  Pure observation of the regime, computed from the norms only.
     if n and regime != "integer":
@@ -271,8 +272,9 @@ def _check_uniquify(case, mon):
                 bidx += 1
                 anchor = norms[j]
             bucket[j] = bidx
-        split = sum(1 for l in set(labels)
-                    if len({int(bucket[i]) for i in range(n) if labels[i] == l}) > 1)
+        straddlers = {l for l in set(labels)
+                      if len({int(bucket[i]) for i in range(n) if labels[i] == l}) > 1}
+        split = len(straddlers)
         if split:
             mon.count("uniquify_clusters_with_bucket_boundary_inside", split)
         spread = (norms.max() - norms.min()) / tol
@@ -300,8 +302,14 @@ def _check_uniquify(case, mon):
         by_label = {}
         for i, l in enumerate(labels):
             by_label.setdefault(l, set()).add(int(o2n[i]))
-        if len(n2o) > K and any(len(v) > 1 for v in by_label.values()):
+        broken = {l for l, v in by_label.items() if len(v) > 1}
+        if len(n2o) > K and broken and broken <= straddlers:
+            # exactly the clusters whose members' norms lie on both sides of
+            # (smallest norm of the norm-cluster) + tol got more than one representative
             mon.violation("uniquify_point_set:cluster-split-by-norm-bucket-boundary",
+                          {**d, "expected_unique": K, "got_unique": int(len(n2o))})
+        elif len(n2o) > K and broken:
+            mon.violation("uniquify_point_set:cluster-members-not-merged",
                           {**d, "expected_unique": K, "got_unique": int(len(n2o))})
         else:
             mon.violation("uniquify_point_set:wrong-number-of-representatives",
